@@ -18,12 +18,12 @@ structure Protocol (f : Fmt) (t : Trace) (c y : Nat) : Prop where
   hH : f.headerSize ≤ kSector
   hS : f.sanity.size < f.headerSize
   hne : prefixIs Img.empty f.sanity = false
-  hlen : f.headerSize ≤ (vol t c).len
+  hlen : f.headerSize ≤ (vol t (y + 1)).len
   hcommit : (t.getD c .close).inHeader f.headerSize = true
   hafter : noWriteBetween t c t.length = true
   hy : y < c
   hsync : (t.getD y .close).fullSync (vol t (y + 1)).len = true
-  hbetween : noWriteBetween t y c = true
+  hbetween : onlyHeaderBetween t y c f.headerSize = true
 
 theorem conforms_unpack (f : Fmt) (t : Trace) (h : conforms f t = true) : ∃ c y, Protocol f t c y := by
   unfold conforms at h
@@ -32,7 +32,7 @@ theorem conforms_unpack (f : Fmt) (t : Trace) (h : conforms f t = true) : ∃ c 
   | some c =>
     rw [hc] at h
     simp only [Bool.and_eq_true, decide_eq_true_eq, List.any_eq_true, List.mem_range, Bool.not_eq_true'] at h
-    obtain ⟨⟨⟨⟨⟨⟨⟨hH, hS⟩, hne⟩, hlen⟩, hcm⟩, haf⟩, ⟨y, hy, hsy, hbt⟩⟩, _⟩ := h
+    obtain ⟨⟨⟨⟨⟨hH, hS⟩, hne⟩, hcm⟩, haf⟩, ⟨y, hy, ⟨⟨hsy, hlen⟩, hbt⟩, _⟩⟩ := h
     refine ⟨c, y, ⟨hc, hH, hS, hne, hlen, ?_, haf, hy, hsy, hbt⟩⟩
     cases hg : t.getD c .close <;> rw [hg] at hcm <;> simp [Ev.inHeader] at hcm ⊢ <;> exact hcm
 
@@ -72,16 +72,10 @@ theorem Protocol.after_sync : ∀ k, y + 1 ≤ k →
     · subst hjc
       have : t.getD j .close = e := by rw [List.getD_eq_getElem?_getD, he]; rfl
       rw [← this]; exact P.hcommit
-    · have hnw : e.isWrite = false := by
-        rcases Nat.lt_or_ge j c with hlt | hge
-        · exact noWriteBetween_spec t y c P.hbetween j e (by omega) hlt he
-        · exact noWriteBetween_spec t c t.length P.hafter j e (by omega) h2 he
-      cases e <;> simp [Ev.isWrite] at hnw <;> simp [Ev.inHeader, Ev.isWrite]
-  -- length at y+1 = length at c (no writes in between) ≥ headerSize
-  have hyc : vol t c = vol t (y + 1) :=
-    vol_frame t (y + 1) c (by have := P.hy; omega) (by omega) (fun j e h1 h2 he =>
-      noWriteBetween_spec t y c P.hbetween j e (by omega) h2 he)
-  have hl : f.headerSize ≤ (vol t (y + 1)).len := by rw [← hyc]; exact P.hlen
+    · rcases Nat.lt_or_ge j c with hlt | hge
+      · exact onlyHeaderBetween_spec t y c _ P.hbetween j e (by omega) hlt he
+      · exact nonwrite_inHeader e _ (noWriteBetween_spec t c t.length P.hafter j e (by omega) h2 he)
+  have hl : f.headerSize ≤ (vol t (y + 1)).len := P.hlen
   have hfin := vol_frame_header t (y + 1) f.headerSize hl t.length (by have := P.hy; omega) (Nat.le_refl _)
     (fun j e h1 h2 he => hev j e h1 h2 he)
   intro k hk
@@ -208,20 +202,60 @@ theorem prefix_rejected (f : Fmt) (fin : Img) (n : Nat) (hn : n < fin.len) :
 
 /-- **The complete header becomes visible only after everything else is on stable storage**:
 under the protocol there is a commit event `c` and an earlier event `y` that syncs the whole
-file as it then is (so it covers every sector), with no write in between and none after `c`. -/
+file as it then is (so it covers every sector), with nothing but header bytes written in between
+and nothing after `c`. -/
 theorem header_last (f : Fmt) (t : Trace) (hc : conforms f t = true) :
     headerLast f t = true ∧
     ∃ c y, commitIdx f t = some c ∧ y < c ∧
       (∀ s, (t.getD y .close).covers (vol t (y + 1)).len s = true) ∧
-      (∀ j e, y < j → j < c → t[j]? = some e → e.isWrite = false) ∧
+      (∀ j e, y < j → j < c → t[j]? = some e → e.inHeader f.headerSize = true) ∧
       (∀ j e, c < j → j < t.length → t[j]? = some e → e.isWrite = false) := by
   obtain ⟨c, y, P⟩ := conforms_unpack f t hc
   refine ⟨?_, c, y, P.hc, P.hy, fun s => fullSync_covers _ _ s P.hsync,
-    noWriteBetween_spec t y c P.hbetween, noWriteBetween_spec t c t.length P.hafter⟩
+    onlyHeaderBetween_spec t y c _ P.hbetween, noWriteBetween_spec t c t.length P.hafter⟩
   unfold headerLast
   rw [P.hc]
   simp only [List.any_eq_true, List.mem_range, Bool.and_eq_true]
-  exact ⟨y, P.hy, P.hsync, P.hbetween⟩
+  exact ⟨y, P.hy, ⟨P.hsync, decide_eq_true P.hlen⟩, P.hbetween⟩
+
+/-! ### The driver's power-loss enumeration and the `Crash` relation
+`lean/Driver/C09.lean` emits `crashImage vols jl choice` for pairs `(jl, choice)` that pass the
+decidable tests `lenOKB` / `verOKB`, with `vols j = vol t j` for `j ≤ k` (a table). -/
+
+/-- **soundness**: every image the driver emits is a crash image of the model. -/
+theorem crash_enumeration_sound (t : Trace) (k jl : Nat) (choice : Nat → Nat) (vols : Nat → Img)
+    (hk : k ≤ t.length) (hv : ∀ j, j ≤ k → vols j = vol t j)
+    (hl : lenOKB t k jl = true) (hc : ∀ s, verOKB t k s (choice s) = true) :
+    Crash t k (crashImage vols jl choice) := by
+  have hL := (lenOKB_iff t k jl).mp hl
+  refine ⟨hk, ⟨jl, hL, by show (vols jl).len = _; rw [hv jl hL.1]⟩, fun s => ?_⟩
+  have hV := (verOKB_iff t k s (choice s)).mp (hc s)
+  refine ⟨choice s, hV, fun i his hi => ?_⟩
+  have hi' : i < (vols jl).len := hi
+  rw [crashImage_get vols jl choice i hi', his, hv (choice s) hV.1]
+
+/-- **completeness at the level of (length version, sector versions)**: every crash image of the
+model is, byte for byte, `crashImage` of some pair that passes the driver's tests.  (That the
+driver's mixed-radix counter visits every such pair — up to sectors with equal content — when
+their number is ≤ the cap is executable glue in `Driver/C09.lean`, not a theorem.) -/
+theorem crash_enumeration_complete (t : Trace) (k : Nat) (img : Img) (h : Crash t k img) :
+    ∃ jl choice, lenOKB t k jl = true ∧ (∀ s, verOKB t k s (choice s) = true) ∧
+      img.eqv (crashImage (vol t) jl choice) := by
+  obtain ⟨_, ⟨jl, hjl, hlen⟩, hsec⟩ := h
+  have hch : ∀ s, ∃ j, VerOK t k s j ∧ ∀ i, i / kSector = s → i < img.len → img.get i = (vol t j).get i := hsec
+  let choice : Nat → Nat := fun s => Classical.choose (hch s)
+  have hspec : ∀ s, VerOK t k s (choice s) ∧ ∀ i, i / kSector = s → i < img.len → img.get i = (vol t (choice s)).get i :=
+    fun s => Classical.choose_spec (hch s)
+  refine ⟨jl, choice, (lenOKB_iff t k jl).mpr hjl, fun s => (verOKB_iff t k s _).mpr (hspec s).1, ?_, ?_⟩
+  · exact hlen
+  · intro i
+    by_cases hi : i < img.len
+    · rw [crashImage_get (vol t) jl choice i (by rw [← hlen]; exact hi)]
+      exact (hspec (i / kSector)).2 i rfl hi
+    · have h1 : img.get i = 0 := by unfold Img.get; simp [hi]
+      have h2 : (crashImage (vol t) jl choice).get i = 0 := by
+        unfold Img.get crashImage; simp only; rw [← hlen]; simp [hi]
+      rw [h1, h2]
 
 /-! ### Non-vacuity and the two write methods in miniature
 A toy format with a 4-byte "Sanity" `[9,9,9,9]`, marker `[7,7]`, header size 8. -/
@@ -255,11 +289,34 @@ violates the "in particular" clause (no sync of the whole file precedes the head
 theorem mmap_vocab_header_not_last : headerLast toyFmt toyMmapVocab = false ∧ conforms toyFmt toyMmapVocab = false := by
   decide
 
+/-- non-vacuity on the E-shaped toy trace after the header store (k = 8): the length is durable since
+the last msync (event 7), but sector 0 — which here also holds the `write()`n strings the msync
+does not cover — may still be at any version since the *first* msync (event 4), not older. -/
+example : lenOKB toyMmapVocab 8 7 = true ∧ lenOKB toyMmapVocab 8 6 = false ∧
+    verOKB toyMmapVocab 8 0 4 = true ∧ verOKB toyMmapVocab 8 0 3 = false := by
+  decide
+
 /-- with an `fsync` before the header (the repair) the same shape conforms -/
 example : conforms toyFmt
     [.create, .truncate 12, .store 0 #[7, 7, 0, 0, 0, 0, 0, 0, 1, 2, 3, 4], .msync 0 12, .munmap,
      .pwrite 12 #[60, 117], .msync 0 12, .fsync,
      .store 0 #[9, 9, 9, 9, 5, 5, 5, 5], .msync 0 12, .munmap, .close] = true := by decide
+
+/-- `WriteHeader` traced store by store with the Sanity block LAST (the repaired order): the
+parameter stores lie between the full sync and the commit, inside the header — conforms. -/
+example : conforms toyFmt
+    [.create, .truncate 12, .store 0 #[7, 7, 0, 0, 0, 0, 0, 0, 1, 2, 3, 4], .msync 0 12,
+     .store 4 #[5, 5], .store 6 #[5, 5], .store 0 #[9, 9, 9, 9], .msync 0 12, .munmap, .close] = true := by decide
+
+/-- **Sanity block FIRST** (the order of the unchanged `WriteHeader`): the commit event precedes the
+parameter stores, so the protocol is violated ("nothing is written after the commit"), and the
+volatile image right after the Sanity store — a reachable process-kill image when writing
+through a shared mapping — loads although its parameters differ from the final file's. -/
+theorem sanity_first_not_conforming :
+    let t : Trace := [.create, .truncate 12, .store 0 #[7, 7, 0, 0, 0, 0, 0, 0, 1, 2, 3, 4], .msync 0 12,
+      .store 0 #[9, 9, 9, 9], .store 4 #[5, 5], .store 6 #[5, 5], .msync 0 12, .munmap, .close]
+    conforms toyFmt t = false ∧ loads toyFmt (vol t 5) = true ∧ (vol t 5).get 4 ≠ (final t).get 4 := by
+  decide
 
 /-- a writer that puts the complete header first does not conform -/
 example : conforms toyFmt
